@@ -114,6 +114,19 @@ func newTextContext() (*tctx, error) {
 // probeDoc is the document whose <p> is the probe element.  bodyDecls style its parent, decls the
 // probe itself, after a later rule of equal specificity.
 func probeDoc(bodyDecls, decls, after string) string {
+	return probeDocAt("sheet", bodyDecls, decls, after)
+}
+
+func attrEsc(s string) string {
+	return strings.NewReplacer("&", "&amp;", "\"", "&quot;", "<", "&lt;", ">", "&gt;").Replace(s)
+}
+
+// probeDocAt writes the same declarations at another site of the cascade: "attr" puts them in the
+// style attributes of <body> and <p> (no later rule possible there).
+func probeDocAt(site, bodyDecls, decls, after string) string {
+	if site == "attr" {
+		return "<html><head></head><body style=\"" + attrEsc(bodyDecls) + "\"><p title=\"T\" lang=\"en\" href=\"#x\" style=\"" + attrEsc(decls) + "\"></p></body></html>"
+	}
 	var sb strings.Builder
 	sb.WriteString("<html><head><style>\n")
 	if bodyDecls != "" {
@@ -129,7 +142,11 @@ func probeDoc(bodyDecls, decls, after string) string {
 
 // computedStyle returns the computed value of every known property of the probe element.
 func computedStyle(bodyDecls, decls, after string) ([]pr.CssProperty, error) {
-	html, err := tree.NewHTML(utils.InputString(probeDoc(bodyDecls, decls, after)), baseURL, wr.MemFetcher(nil), "")
+	return computedStyleAt("sheet", bodyDecls, decls, after)
+}
+
+func computedStyleAt(site, bodyDecls, decls, after string) ([]pr.CssProperty, error) {
+	html, err := tree.NewHTML(utils.InputString(probeDocAt(site, bodyDecls, decls, after)), baseURL, wr.MemFetcher(nil), "")
 	if err != nil {
 		return nil, err
 	}
